@@ -35,6 +35,10 @@ def run_demo(out, wt):
         return None, "cannot determine crate/demo from README"
     feat = re.search(r"--features[ =](\S+)", readme)
     featarg = f"--features {feat.group(1)}" if feat else ""
+    if re.search(r"cargo test[^\n]*--release", readme):
+        featarg += " --release"
+    if re.search(r"cargo test[^\n]*--no-default-features", readme):
+        featarg += " --no-default-features"
     os.makedirs(f"{wt}/{crate}/tests", exist_ok=True)
     installed = []
     for d in demos:
